@@ -47,7 +47,7 @@ def seeded():
             v.get("demo_clean_rc"), v.get("demo_patched_rc"), "pass" if v.get("suite_ok", True) else "FAIL",
             v.get("check_tier"),
             (("yes: `%s`" % clause) + ((" (seeds %s)" % ",".join(k for k, x in v.get("check_per_seed", {}).items() if x.get("rc") == 1)) if v.get("check_per_seed") else ""))
-            if v.get("detected") else (("by related check %s" % v["detected_by_related_check"]) if v.get("detected_by_related_check") else "**no**")))
+            if v.get("detected") else (("by related check %s" % v["detected_by_related_check"]) if v.get("detected_by_related_check") else ("**no**" + ((" — " + m["judgement"]) if m.get("judgement") else "")))))
     return "%d independently seeded changes kept (confirmed by us: demo passes clean / fails patched, suite green), %d detected by the quick tier of the property's check.\n\n" % (tot, det) + "\n".join(rows)
 
 def benign():
